@@ -156,6 +156,23 @@ def main():
         return 'decide (%d ≤ t) && decide (t %s %d)' % (lo, '≤' if incl else '<', hi), r
     split_req, split_req_src = split_pred(invreq, 'UnsignedInvoiceRequest', 'TryFrom<Vec<u8>> for UnsignedInvoiceRequest')
     split_inv, split_inv_src = split_pred(inv, 'UnsignedBolt12Invoice', 'TryFrom<Vec<u8>> for UnsignedBolt12Invoice')
+    # ---------------- impl Writeable for the unsigned types: which of the two halves are written, in which order
+    def write_plan(src, ty):
+        m = re.search(r'impl Writeable for %s \{\s*fn write<W: Writer>\(&self, writer: &mut W\) -> Result<\(\), io::Error>\s*\{' % ty, src)
+        if not m: raise TErr('cannot find impl Writeable for %s' % ty)
+        b = ws(src[m.end():match_brace(src, m.end() - 1) - 1])
+        stmts = [x.strip() for x in b.split(';')]
+        if stmts and stmts[-1] == '': raise TErr('impl Writeable for %s: the body ends with `;` (no tail expression)' % ty)
+        parts = []
+        for k, st in enumerate(stmts):
+            q = re.fullmatch(r'WithoutLength\(&self\.(bytes|experimental_bytes)\)\.write\(writer\)(\??)', st)
+            if not q or (q.group(2) == '?') != (k < len(stmts) - 1):
+                raise TErr('impl Writeable for %s: unrecognised statement `%s`' % (ty, st))
+            parts.append('.bytes' if q.group(1) == 'bytes' else '.experimental')
+        return parts
+    w_req = write_plan(invreq, 'UnsignedInvoiceRequest')
+    w_inv = write_plan(inv, 'UnsignedBolt12Invoice')
+    if re.search(r'impl Writeable for UnsignedStaticInvoice', sinv): raise TErr('UnsignedStaticInvoice now has a Writeable impl: not translated yet')
     if re.search(r'impl TryFrom<Vec<u8>> for UnsignedStaticInvoice', sinv): raise TErr('UnsignedStaticInvoice now has a TryFrom<Vec<u8>>: its split point is not translated yet')
     sig_m = re.search(r'const SIGNATURE_TYPES: core::ops::RangeInclusive<u64> =\s*([\d_]+)\s*\.\.=\s*([\d_]+);', rd('lightning/src/offers/merkle.rs'))
     if not sig_m: raise TErr('cannot find SIGNATURE_TYPES in merkle.rs')
@@ -214,11 +231,17 @@ def main():
           'def invreqSplitIn (t : Nat) : Bool := %s' % split_req, '',
           '/-- invoice.rs TryFrom<Vec<u8>> for UnsignedBolt12Invoice: the same, range `%s` -/' % split_inv_src,
           'def invoiceSplitIn (t : Nat) : Bool := %s' % split_inv, '',
+          '/-- one `WithoutLength(&self.<field>).write(writer)` of `impl Writeable for Unsigned*` -/',
+          'inductive WPart', '  | bytes', '  | experimental', '  deriving DecidableEq, Repr', '',
+          '/-- invoice_request.rs impl Writeable for UnsignedInvoiceRequest, statements in source order -/',
+          'def invreqUnsignedWrite : List WPart := [%s]' % ', '.join(w_req), '',
+          '/-- invoice.rs impl Writeable for UnsignedBolt12Invoice -/',
+          'def invoiceUnsignedWrite : List WPart := [%s]' % ', '.join(w_inv), '',
           'end Ldk.C18Mirror', '']
     text = '\n'.join(L)
     if not os.path.exists(OUT) or open(OUT).read() != text:
         open(OUT, 'w').write(text)
-    print('gen_c18_mirror: ok (3 plans, 2 split ranges, 14 constants)')
+    print('gen_c18_mirror: ok (3 plans, 2 split ranges, 2 unsigned write plans, 14 constants)')
 
 if __name__ == '__main__':
     try:
